@@ -16,11 +16,12 @@ RULE = ("histories of 1..12 calls on one ECDH object over a pool of 2..4 Curve o
         "two-party exchanges with boundary scalar pairs and pairs whose secret has leading zero bytes (searched on toy "
         "curves, fixed vectors re-verified on named curves); distinct = distinct history line; non-trivial = history "
         "contains at least one generate_sharedsecret(_bytes) call")
-EXTRA_PROPS = ["C05g", "C05b"]   # C05b: secret_bytes with the number_to_string facts discharged; C05g: GroupReading discharged for Model/Curve.lean from C06/C07 (Proofs/GroupInterface.lean)
+EXTRA_PROPS = ["C05g", "C05b", "C05k", "C05t"]   # C05k: LoadersValidate proved for the driver env from C08; C05b: secret_bytes with the number_to_string facts discharged; C05g: GroupReading discharged for Model/Curve.lean from C06/C07 (Proofs/GroupInterface.lean)
 ASSUMPTIONS = [
     "Curve/SigningKey/VerifyingKey objects are not mutated behind the ECDH object's back (C19 covers value stability)",
-    "key constructors are parameters of the model (their outcome is supplied per history until Model/Keys.lean is linked); "
-    "their validation is C08 - the search re-validates every accepted remote key with textbook arithmetic",
+    "key constructors are parameters of Model/Ecdh.lean; the driver instantiates them with Model/Keys.lean (externals from "
+    "Model/Curve.lean and Model/NumberTheory.lean), so nothing computed by the real code flows into the model's answers; "
+    "their validation theorem is C08 - the search also re-validates every accepted remote key with textbook arithmetic",
     "point multiplication is read in an abstract commutative group in the symmetry theorem (C06/C07 provide the reading)",
 ]
 
@@ -102,7 +103,9 @@ class CurveSpec:
         self.cv = (self.p, self.a % self.p, self.b % self.p)
 
     def wire(self):
-        return "%d,%d,%d,%d,%d,%d" % (self.p, self.a, self.b, self.G[0], self.G[1], self.n)
+        if self.named:
+            return self.obj.name          # the module-level Curve object: the row of the generated curve table
+        return "toy:%d:%d:%d:%d:%d:%d:%d" % (self.p, self.a, self.b, self.G[0], self.G[1], self.n, self.spec["toy"][6])
 
 
 def toy_spec(name, tag=0):
@@ -144,6 +147,12 @@ class Run:
         for i, c in enumerate(self.cs):
             if c.obj is cobj:
                 return i
+        # a key decoded from DER/PEM carries the module-level curve of its OID, which need not be one the history
+        # started with (e.g. after a bit flip in the OID): it joins the pool
+        from ecdsa import curves
+        if any(cobj is c for c in curves.curves):
+            self.cs.append(CurveSpec({"name": cobj.name}))
+            return len(self.cs) - 1
         raise KeyError("curve object not in the history's pool")
 
     def show(self, v):
@@ -167,18 +176,6 @@ class Run:
                 raise
             return ("err", common.errname(e), "!" + common.errname(e))
 
-    def oracle_tok(self, kind, f):
-        """outcome of a key constructor on its own (what the model takes as the external function's value)"""
-        try:
-            k = f()
-        except BaseException as e:  # noqa
-            if isinstance(e, (KeyboardInterrupt, SystemExit, MemoryError)):
-                raise
-            return "err," + common.errname(e)
-        if kind == "sk":
-            return "ok," + self.sk_tok(k)
-        return "ok," + self.vk_tok(k)
-
     def run(self):
         from ecdsa import ecdh
         from ecdsa.keys import SigningKey, VerifyingKey
@@ -200,8 +197,6 @@ class Run:
         outs.append("init")
         for op in h["ops"]:
             o = op[0]
-            cur = None if e.curve is None else self.cid(e.curve)
-            curs = "-" if cur is None else str(cur)
             if o == "setcurve":
                 cobj = None if op[1] is None else self.cs[op[1]].obj
                 toks.append("setcurve:%s" % ("-" if op[1] is None else op[1]))
@@ -216,13 +211,11 @@ class Run:
                 r = self.call(lambda: e.load_private_key(sk))
             elif o == "loadprivbytes":
                 b = bytes.fromhex(op[1])
-                orc = "na" if e.curve is None else self.oracle_tok("sk", lambda: SigningKey.from_string(b, curve=e.curve))
-                toks.append("loadprivbytes:%s:%s:%s" % (hx(b), curs, orc))
+                toks.append("loadprivbytes:%s" % hx(b))
                 r = self.call(lambda: e.load_private_key_bytes(b))
             elif o in ("loadprivder", "loadprivpem"):
                 b = bytes.fromhex(op[1])
-                ctor = SigningKey.from_der if o.endswith("der") else SigningKey.from_pem
-                toks.append("%s:%s:%s" % (o, hx(b), self.oracle_tok("sk", lambda: ctor(b))))
+                toks.append("%s:%s" % (o, hx(b)))
                 r = self.call(lambda: (e.load_private_key_der if o.endswith("der") else e.load_private_key_pem)(b))
             elif o == "getpub":
                 toks.append("getpub")
@@ -233,13 +226,11 @@ class Run:
                 r = self.call(lambda: e.load_received_public_key(vk))
             elif o == "loadpubbytes":
                 b = bytes.fromhex(op[1])
-                orc = "na" if e.curve is None else self.oracle_tok("vk", lambda: VerifyingKey.from_string(b, e.curve))
-                toks.append("loadpubbytes:%s:%s:%s" % (hx(b), curs, orc))
+                toks.append("loadpubbytes:%s" % hx(b))
                 r = self.call(lambda: e.load_received_public_key_bytes(b))
             elif o in ("loadpubder", "loadpubpem"):
                 b = bytes.fromhex(op[1])
-                ctor = VerifyingKey.from_der if o.endswith("der") else VerifyingKey.from_pem
-                toks.append("%s:%s:%s" % (o, hx(b), self.oracle_tok("vk", lambda: ctor(b))))
+                toks.append("%s:%s" % (o, hx(b)))
                 r = self.call(lambda: (e.load_received_public_key_der if o.endswith("der") else e.load_received_public_key_pem)(b))
             elif o == "secret":
                 toks.append("secret")
